@@ -402,6 +402,33 @@ def replay_defs_state(mods, hdr, st, idx, res):
             A(("minkowski[1]", t2, lambda X=X, Y=Y, kwx=kwx, sel=sel: sel(md.minkowski(X, Y, p=1, **kwx)), d["manh"]))
             A(("minkowski[2]", t2, lambda X=X, Y=Y, kwx=kwx, sel=sel: sel(md.minkowski(X, Y, p=2, **kwx)) ** 2, d["euclsq"]))
             A(("minkowski[inf]", t2, lambda X=X, Y=Y, kwx=kwx, sel=sel: sel(md.minkowski(X, Y, p=inf, **kwx)), d["cheb"]))
+    # TRANSLATION (Moments.tla: the mean moves with the samples, central moments do not -- ShiftLaw): every third state is
+    # also asked for its moments on the same samples moved by +-2^22.  The definitions as written (deviations from the
+    # mean) are accurate to ~1e-9 relative there; a one-pass formula E[x^2] - E[x]^2 is off by eps*(mean/std)^2 ~ 1e-4.
+    # Judged at 1e-6 relative (fixed, stated): this is the one place where C18 looks at conditioning.
+    shifted = []
+    if idx % 3 == 0 and nontriv:
+        c = (1 << 22) if idx % 2 == 0 else -(1 << 22)
+        Sc = [float(x + c) for x in s_i] if idx % 4 < 2 else np.array([x + c for x in s_i], dtype=float)
+        Wc = [float(x) for x in w_i]
+        mean_c = [obs["mean"][0] + c * obs["mean"][1], obs["mean"][1]]
+        shifted = [("mean", lambda: mm.mean(Sc, Wc), mean_c), ("variance", lambda: mm.variance(Sc, Wc), obs["var"]),
+                   ("std", lambda: mm.std(Sc, Wc) ** 2, obs["var"]), ("moment[2]", lambda: mm.moment(Sc, Wc, order=2), obs["var"]),
+                   ("moment[3]", lambda: mm.moment(Sc, Wc, order=3), obs["m3"]),
+                   ("expected_variance", lambda: mm.expected_variance(lambda x: x[0], [[v] for v in Sc], Wc), obs["var"])]
+        for fn, thunk, exp in shifted:
+            try:
+                g = float(thunk())
+            except Exception as ex:
+                res.violation("%s:raises-%s[translated]" % (fn, type(ex).__name__),
+                              {"fn": fn, "samples": s_i, "shift": c, "weights": w_i, "error": repr(ex)[:300]},
+                              "%s on samples %s + %d raised %r" % (fn, s_i, c, ex))
+                continue
+            e = exp[0] / exp[1]
+            if not (math.isfinite(g) and abs(g - e) <= 1e-6 * max(abs(e), 1e-300)):
+                res.violation("%s:wrong-value[translated]" % fn,
+                              {"fn": fn, "samples": s_i, "shift": c, "weights": w_i, "expected": exp, "got": repr(g)},
+                              "%s on samples %s + %d weights %s: spec %s/%s (translation law), mystic %r" % (fn, s_i, c, w_i, exp[0], exp[1], g))
     for fn, tag, thunk, exp in calls:
         try:
             got = thunk()
